@@ -84,6 +84,30 @@ Theorem C19_enum_named_like_block_refuted :
   wf_output "Dev" (dev IU8 [OBlock None "Ba" 0 None [ex_reg "Ra" 0 RW None [ex_field "fa" RW (Some (en "En"))]]]) = true.
 Proof. vm_compute. repeat split; reflexivity. Qed.
 
+(* D20, the other namespaces: a register named like a command's field set; two objects of one block whose (distinct)
+   Pascal names have the same snake accessor name; a field `set_a` next to a writable field `a`; a field named `new`;
+   an object whose accessor would be called `interface`. *)
+Theorem C19_namespace_collisions_refuted :
+  let cmd := OCommand {| cm_cfg := None; cm_name := "Foo"; cm_address := 0; cm_byte_order := None; cm_bit_order := BiLSB0;
+                         cm_allow_bit_overlap := false; cm_allow_address_overlap := false; cm_size_in := 8; cm_size_out := 0;
+                         cm_repeat := None; cm_in_fields := [ex_field "fb" RW None]; cm_out_fields := [] |} in
+  failing_obligations "Dev" (dev IU8 [ex_reg "FooFieldsIn" 0 RW None [ex_field "fa" RW None]; cmd]) = ["D20"] /\
+  failing_obligations "Dev" (dev IU8 [ex_reg "AB1C" 0 RW None [ex_field "fa" RW None]; ex_reg "Ab1C" 1 RW None [ex_field "fa" RW None]]) = ["D20"] /\
+  failing_obligations "Dev" (dev IU8 [ex_reg "Ra" 0 RW None [ex_field "a" RW None; ex_field "set_a" RW None]]) = ["D20"] /\
+  failing_obligations "Dev" (dev IU8 [ex_reg "Ra" 0 RW None [ex_field "new" RW None]]) = ["D20"] /\
+  failing_obligations "Dev" (dev IU8 [ex_reg "Interface" 0 RW None [ex_field "fa" RW None]]) = ["D20"] /\
+  failing_obligations "Dev" (dev IU8 [ex_reg "Ra" 0 RW None [ex_field "a" RO None; ex_field "set_a" RW None]]) = [].
+Proof. vm_compute. repeat split; reflexivity. Qed.
+
+(* D21: a name that is a Rust keyword where the emitter writes it bare: a field `fn` (manifest), an object `match`
+   (struct `Match`, accessor `match`), an object `self` (struct `Self`). *)
+Theorem C19_keyword_identifier_refuted :
+  failing_obligations "Dev" (dev IU8 [ex_reg "Ra" 0 RW None [ex_field "fn" RW None]]) = ["D21"] /\
+  failing_obligations "Dev" (dev IU8 [ex_reg "Match" 0 RW None [ex_field "fa" RW None]]) = ["D21"] /\
+  failing_obligations "Dev" (dev IU8 [ex_reg "Self" 0 RW None [ex_field "fa" RW None]]) = ["D21"] /\
+  wf_output "Dev" (dev IU8 [ex_reg "Ra" 0 RW None [ex_field "fn" RW None]]) = false.
+Proof. vm_compute. repeat split; reflexivity. Qed.
+
 (* Strongest true statement: outside those classes — no block refs, every field readable, enum numbers pairwise distinct and
    representable in the enum's repr type (non-negative below 2^carrier on uint/bool fields, within the signed range on int fields) — and with type names unique per namespace (driver name, blocks and
    generated enums share the top level; field sets live in `mod field_sets`), the obligations hold; in
@@ -94,8 +118,19 @@ Theorem C19_wf_output_partial : forall driver d,
   nodup_str (field_set_type_names d) = true ->
   forallb (fun f => readable (f_access f)) (all_fields d) = true ->
   forallb enum_literals_ok (enums_of d) = true ->
+  namespaces_ok driver d = true ->
+  keyword_free driver d = true ->
   wf_output driver d = true.
 Proof. exact wf_output_partial. Qed.
+
+(* The class tags the check compares with rustc are exactly the conjuncts of wf_output (a block ref, D9, is a named
+   cause of a top-level name collision rather than a conjunct of its own). *)
+Theorem C19_no_failing_obligation_iff : forall driver d,
+  has_block_ref d = false ->
+  (failing_obligations driver d = [] <->
+   debug_refs_resolve d = true /\ forallb enum_literals_ok (enums_of d) = true /\
+   namespaces_ok driver d = true /\ keyword_free driver d = true).
+Proof. exact no_failing_obligation_iff. Qed.
 
 Theorem C19_block_structs_are_declared_blocks : forall fuel all objs,
   no_block_refs fuel objs = true -> block_structs fuel all objs = declared_blocks fuel objs.
@@ -116,5 +151,8 @@ Print Assumptions C19_duplicate_discriminant_refuted.
 Print Assumptions C19_negative_discriminant_refuted.
 Print Assumptions C19_signed_discriminant_refuted.
 Print Assumptions C19_enum_named_like_block_refuted.
+Print Assumptions C19_namespace_collisions_refuted.
+Print Assumptions C19_keyword_identifier_refuted.
+Print Assumptions C19_no_failing_obligation_iff.
 Print Assumptions C19_wf_output_partial.
 Print Assumptions C19_block_structs_are_declared_blocks.
